@@ -175,6 +175,8 @@ def build4(name="EQ"):
     m.add("E8", Type("SEQUENCE", comps=[Comp("s8", Type("IA5String"), has_default=True, default="hello"),
                                         Comp("u8", Type("UTF8String"), has_default=True, default=""),
                                         Comp("n8", Type("INTEGER")),
+                                        # an INTEGER_t member (64-bit range on both sides): its DEFAULT setter allocates twice
+                                        Comp("w8", Type("INTEGER", value_c=Constraint.simple(-(1 << 63), (1 << 63) - 1)), has_default=True, default=7),
                                         Comp("v8", Type("VisibleString"), has_default=True, default="a longer default value, 40 characters..")],
                       ext=[Comp("x8", Type("IA5String"), has_default=True, default="ext")]))
     for t in m.types.values():
